@@ -602,6 +602,27 @@ func ExchangeCases(tier string, seed uint64) []ExCase {
 		e.Rig.WaitEvents("wrote", 1, 3*time.Second)
 	})
 
+	// a shutdown begins while the upstream proxy has not yet answered the CONNECT: outside the statement
+	// (no shutdown in progress), driven to confirm the model's account of it: 200 with Connection: close,
+	// no tunnel, no completion report
+	add("connect-answered-during-shutdown", "connect-during-shutdown", func(e *Env) {
+		up := e.Peer(echoingUpstream(250 * time.Millisecond))
+		e.Start(func(op *Options) { op.Upstream = "http://" + up.Addr })
+		c := e.Client()
+		c.Write([]byte(connectReq("example.invalid:443")))
+		e.Rig.WaitEvents("read", 1, time.Second)
+		e.Rig.BeginShutdown()
+		e.O.Shutdown = true
+		ex := Ex{Val: Val{Connect: true, ClosingW: true}, Method: "CONNECT"}
+		co := ReadResponse(c, true, 3*time.Second)
+		ex.Seen, ex.Verdict = true, co.P.Verdict
+		if co.P.Verdict == VComplete {
+			ex.Client = co.P.Status
+		}
+		e.End(c, co)
+		e.O.Exs = []Ex{ex}
+	})
+
 	// ---------------------------------------------------------------- more upstream faults (status mapping, C12)
 	httpsGet := func(addr string) string { return getReq("https://" + addr + "/x") }
 	type tlsFault struct {
